@@ -77,9 +77,18 @@ def base_problem(alg: str, q: dict):
     return Xd, start, ranks
 
 
-def run(alg: str, q: dict, p: dict):
+def run(alg: str, q: dict, p: dict, shared: dict = None):
     import bind
     ttb = bind.ttb
+    shared = {} if shared is None else shared
+
+    def same_object(key, make):
+        # "the same starting guess" is literally the same object for every run of one problem that uses the same
+        # mode labelling (what a user comparing presentations does); a run may not leave anything behind in it
+        k = (key, tuple(p["perm"]))
+        if k not in shared:
+            shared[k] = make()
+        return shared[k]
     Xd, start, ranks = base_problem(alg, q)
     N = Xd.ndim
     perm = list(p["perm"])
@@ -101,18 +110,18 @@ def run(alg: str, q: dict, p: dict):
         with contextlib.redirect_stdout(io.StringIO()), warnings.catch_warnings(), np.errstate(all="ignore"):
             warnings.simplefilter("ignore")
             if alg == "cp_als":
-                init = ttb.ktensor([a.copy() for a in st], np.ones(ranks)) if p["start"] == "given" else "random"
+                init = same_object("k", lambda: ttb.ktensor([a.copy() for a in st], np.ones(ranks))) if p["start"] == "given" else "random"
                 M, _, out = ttb.cp_als(X, ranks, stoptol=0.0, maxiters=q["maxiters"], dimorder=order, init=init, printitn=prn)
                 full, fit, iters = np_full_k(M.weights, M.factor_matrices), out["fit"], out["iters"]
             elif alg.startswith("cp_apr"):
-                init = ttb.ktensor([a.copy() for a in st], np.ones(ranks)) if p["start"] == "given" else "random"
+                init = same_object("k", lambda: ttb.ktensor([a.copy() for a in st], np.ones(ranks))) if p["start"] == "given" else "random"
                 M, _, out = ttb.cp_apr(X, ranks, algorithm=alg[7:], stoptol=1e-4, maxiters=q["maxiters"], init=init,
                                        maxinneriters=q.get("maxinner", 3), printitn=prn, printinneritn=prn)
                 full, fit = np_full_k(M.weights, M.factor_matrices), out["obj"]
                 iters = int(np.asarray(out["kktViolations"]).size)
             elif alg == "tucker_als":
                 rk = [ranks[perm[k]] for k in range(N)]
-                init = [a.copy() for a in st] if p["start"] == "given" else "random"
+                init = same_object("l", lambda: [a.copy() for a in st]) if p["start"] == "given" else "random"
                 T, _, out = ttb.tucker_als(X, rk, stoptol=0.0, maxiters=q["maxiters"], dimorder=order, init=init, printitn=prn)
                 full, fit, iters = np_full_t(T.core.data if hasattr(T.core, "data") else T.core.full().data, T.factor_matrices), out["fit"], out["iters"]
             elif alg == "hosvd":
@@ -143,9 +152,10 @@ def problem_trace(b: dict) -> dict:
     evs = [{"op": "problem", "args": {"alg": alg, "N": N}}]
     base = {"holder": "dense", "printitn": 0, "seed": 0, "scale": [1, 1], "perm": list(range(N)), "start": b["start"], "dtype": "float"}
     ref = None
+    shared = {}
     for p in [base] + b["pres"]:
         try:
-            full, fit, iters = run(alg, q, p)
+            full, fit, iters = run(alg, q, p, shared)
             if ref is None:
                 ref = (full, fit, iters)
             d = np.linalg.norm(full - ref[0]) / max(np.linalg.norm(ref[0]), 1e-300)
